@@ -505,7 +505,7 @@ func (g gen) ranges(a []pt, dom int, k int) []jq {
 
 func (g gen) randomCase(im impl) jcase {
 	r := g.w.Rng
-	dom := []int{6, 25, 25, 25, 64}[r.IntN(5)]
+	dom := []int{6, 6, 12, 12, 25, 25, 25, 64}[r.IntN(8)]
 	c := jcase{Type: im.name, Sorted: true}
 	if im.fam == 1 && r.IntN(4) == 0 {
 		c.Sorted = false
@@ -540,7 +540,7 @@ func (g gen) randomCase(im impl) jcase {
 	if !isSorted(c.B) || !isSorted(c.A) {
 		panic("generator produced an unsorted array")
 	}
-	c.Qs = g.ranges(c.A, dom, 3+r.IntN(6))
+	c.Qs = g.ranges(c.A, dom, 2+r.IntN(4))
 	return c
 }
 
@@ -702,8 +702,8 @@ func (g gen) exhaustive(d int) int {
 func main() {
 	w := vh.New("C37", "From Verif Require Import Base.Prelude Model.C37.\nLocal Open Scope Z_scope.", "case", "check")
 	w.Rule = "per case one concrete array type (round-robin over cursors.{Float,Integer,Unsigned,String,Boolean,Timestamp}Array and tsm1.{,Float,Integer,Unsigned,String,Boolean}Values), " +
-		"strictly increasing arrays a,b drawn as random subsets (density 1/8..8/8) of a timestamp domain of size 6, 25 or 64 (lengths 0-40), 20% with MinInt64/MaxInt64(+-1) at the ends, " +
-		"b biased to be disjoint-after / disjoint-before / touching / sharing a's first timestamp; 3-8 ranges per case biased to array elements +-1, array ends, int64 extremes, point ranges and min>max; " +
+		"strictly increasing arrays a,b drawn as random subsets (density 1/8..8/8) of a timestamp domain of size 6, 12, 25 or 64 (lengths 0-40), 20% with MinInt64/MaxInt64(+-1) at the ends, " +
+		"b biased to be disjoint-after / disjoint-before / touching / sharing a's first timestamp; 2-5 ranges per case biased to array elements +-1, array ends, int64 extremes, point ranges and min>max; " +
 		"for tsm1 types 25% of cases use arbitrary lists (length 0-40, duplicates, reversed, single defects) for Deduplicate/Merge; hand-picked edge cases first; " +
 		"thorough tier adds the exhaustive enumeration described in extra.exhaustive_space. " +
 		"Non-trivial: Merge of two non-empty arrays with overlapping time hulls (or an input needing sort/dedup), or a range query that removes some but not all points. Distinct: distinct Gallina terms."
@@ -724,7 +724,7 @@ func main() {
 			run(w, &c)
 		}
 	}
-	if w.N >= 100000 { // thorough tier
+	if w.N >= 50000 { // thorough tier
 		const d = 5
 		k := g.exhaustive(d)
 		w.Extra["exhaustive"] = true
